@@ -637,7 +637,10 @@ class Watcher(object):
 
         Return True if ok, False if the watcher must be stopped
         """
-        if self.is_stopped():
+        if self.is_stopped() or self.is_stopping():
+            # (a start that runs beside the stop - on-demand watchers are
+            # started outside the command lock - must not add processes
+            # the stop does not know about)
             return True
 
         if not recovery_wid and not self.call_hook('before_spawn'):
